@@ -106,9 +106,10 @@ class InstrDict(dict):
 
 
 class IpcDriver:
-    def __init__(self, callers, closers=()):
+    def __init__(self, callers, closers=(), big=False):
         common.use_repo()
         self.closers = {int(c) for c in closers}
+        self.big = big            # responses larger than 64 KiB (the size at which stream readers change their strategy)
         from vloop import VLoop
         import klongpy.sys_fn_ipc as ipc
         self.ipc = ipc
@@ -233,8 +234,9 @@ class IpcDriver:
         mid = self.wire_id.get(c)
         if mid is None:
             return b""
-        fr = self.ipc.encode_message(mid, self.ipc.KGRemoteCloseConnection() if c in self.closers else ("resp", c))
-        return fr[:len(fr) - 3] if partial else fr
+        fr = self.ipc.encode_message(mid, self.ipc.KGRemoteCloseConnection() if c in self.closers
+                                     else (("resp" + "x" * 70000) if self.big else "resp", c))
+        return fr[:len(fr) - (3 if not self.big else 30000)] if partial else fr
 
     def do_caller_step(self, st):
         name = f"c{st['c']}"
